@@ -40,8 +40,12 @@ PairOk(st, pr, got) ==
   ELSE IF st.kind = "num" THEN got.t \in {"dec", "null"}
   ELSE SameRes(got, Expected(st, pr))
 
+\* A / B with a decimal operand: DIVIDE_BY_ZERO exactly for a zero divisor, a decimal otherwise
+ZeroOp(x) == (x.k = "i" /\ I64!IsZero(x.b8)) \/ (x.k = "d" /\ x.cls = "fin" /\ I64!IsZero(x.m))
+DivDecOk(pr, got) == IF ZeroOp(pr.b) THEN SameRes(got, ErrRes("DIVIDE_BY_ZERO")) ELSE got.t = "dec"
 BadPairs(sc) ==
   LET st == sc.steps[1]  o == sc.obs[1] IN
+  IF st.kind = "divdec" THEN {j \in DOMAIN st.pairs : ~DivDecOk(st.pairs[j], o.res[j])} ELSE
   IF st.kind = "divmod" THEN {j \in DOMAIN st.pairs : ~DivModPairOk(st.pairs[j], o.res[j], o.res2[j])}
   ELSE IF st.kind = "same2" THEN {j \in DOMAIN st.pairs : ~Same2(o.res[j], o.res2[j])}
   ELSE {j \in DOMAIN st.pairs : ~PairOk(st, st.pairs[j], o.res[j])}
